@@ -11,7 +11,7 @@ def main(tier, replay=None):
         dict(scn="c19", name="pop3d-state-graph", opts=["mode=pop3d"] + ([] if q else ["thorough=1"]), bounds="0,0,0,0", total=0),
         dict(scn="c19", name="popup-sessions", opts=["mode=popup", "maxdepth=%d" % (3 if q else 4)], bounds="0,0,0,0", total=0, deadline=900),
     ]
-    run_families(res, "C19", tier, fams)
+    plain_src = run_families(res, "C19", tier, fams)
     res.rule = ("pop3d: explicit-state exploration on the real qmail-pop3d under the virtual kernel: for each maildir population (empty; new/ and cur/; "
                 "dot-leading lines, no final newline, empty and header-only files, hidden/future/tmp files) sessions are extended one command "
                 "at a time from the alphabet {STAT, LIST [k], UIDL [k], DELE k, RETR k, TOP k j, RSET, LAST, NOOP, QUIT, unknown, lower case, a file "
@@ -21,4 +21,5 @@ def main(tier, replay=None):
                 "sequence of up to 3 (4) lines from 17 pre-authentication commands, replies and the bytes received by the checker on descriptor 3")
     res.assumptions = ["STAT's message count and LAST's value are outside the comparison (property text)", "messages have pairwise distinct mtimes (order among equal mtimes is unspecified)"]
     res.require_nonzero("evaluations", "replies_checked", "sessions_quit", "sessions_disconnected", "files_vanished", "root_refusals", "authentications", "sessions_merged_into_visited_state")
+    lib_conformance(res, rundir("C19lib"), plain_src, ['num', 'io'], tier, asan=False)
     return res.finish()
